@@ -1,8 +1,9 @@
 """deliberate breakages of the real source that the C20 contracts must catch (see vf/selftest.py).
 
-A mutant counts as 'failed' only through obligations that are discharged on the UNCHANGED tree (the known-finding
-obligations of schmidt_gap / dephase / simulate_counts / quantum_discord / correlation do not mask anything); obligation ids
-are compared with their line numbers removed.  Suffixes starting with ``fdx:`` name a provider of contracts/c20_calc.py: the
+A mutant counts as 'failed' only through obligations that are discharged on the tree the selftest runs on (obligations that
+fail there already -- the known findings, as long as they are unrepaired -- do not mask anything); obligation ids are
+compared with their line numbers removed.  The texts below are those of the tree AFTER the repairs of C20-c/e/f/g (schmidt_gap,
+simulate_counts, dephase, quantum_discord); one mutant per repaired function puts the old defect back.  Suffixes starting with ``fdx:`` name a provider of contracts/c20_calc.py: the
 mutated source file is loaded as a scratch module and the provider is run on it."""
 import os
 import re
@@ -48,11 +49,12 @@ MUTANTS = [
     # ---- schmidt_gap
     (CALC, '::schmidt_gap', '        sysb = [i for i in range(len(dims)) if i not in sysa]\n        sysa = sysb\n\n    rho_a = ptr(psi_ab, dims, sysa)\n    el',
      '        sysb = [i for i in range(len(dims)) if i in sysa]\n        sysa = sysb[:-1]\n\n    rho_a = ptr(psi_ab, dims, sysa)\n    el', 'expect-fail'),
-    (CALC, '::schmidt_gap', '    if sz_b == 1:\n        return 1.0\n\n    # also check if system b is smaller, since spectrum', '    if sz_b <= 2:\n        return 1.0\n\n    # also check if system b is smaller, since spectrum', 'expect-fail'),
+    (CALC, '::schmidt_gap', '    if sz_a == 1 or sz_b == 1:\n        return 1.0\n\n    # also check if system b is smaller, since spectrum', '    if sz_a == 1 or sz_b <= 2:\n        return 1.0\n\n    # also check if system b is smaller, since spectrum', 'expect-fail'),
+    (CALC, '::schmidt_gap', '    if sz_a == 1 or sz_b == 1:\n        return 1.0\n\n    # also check if system b is smaller, since spectrum', '    if sz_b == 1:\n        return 1.0\n\n    # also check if system b is smaller, since spectrum', 'expect-fail'),  # (the defect C20-c put back)
     (CALC, '::schmidt_gap', 'el = eigvalsh(rho_a, k=2, which="LM")', 'el = eigvalsh(rho_a, k=2, which="SA")', 'expect-fail'),
     (CALC, '::schmidt_gap', 'return abs(el[0] - el[1])', 'return abs(el[0] + el[1])', 'expect-fail'),
     (CALC, '::schmidt_gap', 'el = eigvalsh(rho_a, k=2, which="LM")', 'el = eigvalsh(rho_a, k=3, which="LM")', 'expect-fail'),
-    (CALC, '::schmidt_gap', '    if sz_b == 1:\n        return 1.0\n\n    # also check if system b is smaller, since spectrum', '    if sz_b == 1:\n        return 0.0\n\n    # also check if system b is smaller, since spectrum', 'expect-fail'),
+    (CALC, '::schmidt_gap', '    if sz_a == 1 or sz_b == 1:\n        return 1.0\n\n    # also check if system b is smaller, since spectrum', '    if sz_a == 1 or sz_b == 1:\n        return 0.0\n\n    # also check if system b is smaller, since spectrum', 'expect-fail'),
     # ---- partial_transpose_norm / logneg / negativity
     (CALC, '::partial_transpose_norm', '            sysb = [i for i in range(len(dims)) if i not in sysa]\n            sysa = sysb\n\n        rhoa = ptr(p, dims, sysa)\n        return tr_sqrt(rhoa) ** 2',
      '            sysb = [i for i in range(len(dims) - 1) if i not in sysa]\n            sysa = sysb\n\n        rhoa = ptr(p, dims, sysa)\n        return tr_sqrt(rhoa) ** 2', 'expect-fail'),
@@ -87,7 +89,11 @@ MUTANTS = [
     (CALC, '::one_way_classical_information', 'return s_a - sum(p * entropy(rho) for p, rho in gen_paj())', 'return s_a - sum(entropy(rho) for p, rho in gen_paj())', 'expect-fail'),
     (CALC, '::one_way_classical_information', 'return owci if precomp_func else owci(prjs)', 'return owci if precomp_func else owci(prjs[:1])', 'expect-fail'),
     (CALC, '::one_way_classical_information', 'return owci if precomp_func else owci(prjs)', 'return owci', 'expect-fail'),
-    (CALC, '::quantum_discord', '        p = ptr(p, dims, (sysa, sysb))\n    else:\n        p = qu(p, "dop")\n    iab', '        p = ptr(p, dims, (sysa,))\n    else:\n        p = qu(p, "dop")\n    iab', 'expect-fail'),
+    (CALC, '::quantum_discord', '        p = ptr(p, dims, (sysa, sysb))\n    else:\n        p = qu(p, "dop")\n    if sysa > sysb:', '        p = ptr(p, dims, (sysa,))\n    else:\n        p = qu(p, "dop")\n    if sysa > sysb:', 'expect-fail'),
+    (CALC, '::quantum_discord', '    if sysa > sysb:\n        # the pair is still in its original order', '    if False:\n        # the pair is still in its original order', 'expect-fail'),  # (the defect C20-g put back)
+    (CALC, '::quantum_discord', '    if sysa > sysb:\n        # the pair is still in its original order', '    if sysa < sysb:\n        # the pair is still in its original order', 'expect-fail'),
+    (CALC, '::quantum_discord', '        p = permute(p, (dims[sysb], dims[sysa]), (1, 0))', '        p = permute(p, (dims[sysb], dims[sysa]), (0, 1))', 'expect-fail'),
+    (CALC, '::quantum_discord', '        p = permute(p, (dims[sysb], dims[sysa]), (1, 0))', '        p = permute(p, (dims[sysa], dims[sysb]), (1, 0))', 'expect-fail'),
     (CALC, '::quantum_discord', '    iab = mutual_information(p)\n    owci = one_way', '    iab = mutual_information(qu(p, "dop"))\n    owci = one_way', 'expect-fail'),
     (CALC, '::quantum_discord', '        prjb = eye(2) - prja\n        return iab - owci((prja, prjb))', '        prjb = eye(2) - prja\n        return iab - owci((prja, prja))', 'expect-fail'),
     (CALC, '::quantum_discord', '        return iab - owci((prja, prjb))', '        return iab + owci((prja, prjb))', 'expect-fail'),
@@ -130,16 +136,18 @@ MUTANTS = [
     (CALC, '::simulate_counts', 'raw_counts = rng.choice(d, size=C, p=pi)', 'raw_counts = rng.choice(d - 1, size=C, p=pi)', 'expect-fail'),
     (CALC, '::simulate_counts', 'raw_counts = rng.choice(d, size=C, p=pi)', 'raw_counts = rng.choice(d, size=C)', 'expect-fail'),
     (CALC, '::simulate_counts', '    d = phys_dim**n\n\n    if isop(p):', '    d = n**phys_dim\n\n    if isop(p):', 'expect-fail'),
-    (CALC, '::simulate_counts', 'bin_str = "{:0>" + str(n) + "b}"', 'bin_str = "{:0>" + str(n + 1) + "b}"', 'expect-fail'),
-    (CALC, '::simulate_counts', 'bin_str = "{:0>" + str(n) + "b}"', 'bin_str = "{:>" + str(n) + "b}"', 'expect-fail'),
-    (CALC, '::simulate_counts', 'bin_str = "{:0>" + str(n) + "b}"', 'bin_str = "{:0<" + str(n) + "b}"', 'expect-fail'),
+    (CALC, '::simulate_counts', 'return np.base_repr(i, phys_dim).zfill(n)', 'return np.base_repr(i, phys_dim).zfill(n + 1)', 'expect-fail'),
+    (CALC, '::simulate_counts', 'return np.base_repr(i, phys_dim).zfill(n)', 'return np.base_repr(i, 2).zfill(n)', 'expect-fail'),  # (the defect C20-e put back)
+    (CALC, '::simulate_counts', 'return np.base_repr(i, phys_dim).zfill(n)', 'return np.base_repr(i, phys_dim)', 'expect-fail'),
+    (CALC, '::simulate_counts', 'return np.base_repr(i, phys_dim).zfill(n)', 'return np.base_repr(i + 1, phys_dim).zfill(n)', 'expect-fail'),
     (CALC, '::simulate_counts', '        pi = np.diag(p).real\n', '        pi = np.diag(p).real ** 2\n', 'expect-fail'),
     (CALC, '::simulate_counts', '    rng = np.random.default_rng(seed)', '    rng = np.random.default_rng(0)', 'expect-fail'),
     (CALC, '::simulate_counts', '    n = infer_size(p, phys_dim)', '    n = infer_size(p)', 'expect-fail'),
     # ---- dephase (E1; on the unchanged tree the integer kind fails for rand_rank = 1: finding C20-f)
     (CALC, '::dephase', '        rand_rank = min(max(1, rand_rank), d)', '        rand_rank = min(max(1, rand_rank), d - 1)', 'expect-fail'),
     (CALC, '::dephase', '        rand_rank = min(max(1, rand_rank), d)', '        rand_rank = max(1, rand_rank)', 'expect-fail'),
-    (CALC, '::dephase', '        if not isinstance(rand_rank, numbers.Integral):\n            rand_rank = int(rand_rank * d)', '        if isinstance(rand_rank, numbers.Integral):\n            rand_rank = int(rand_rank * d)', 'expect-fail'),
+    (CALC, '::dephase', '    if (rand_rank is not None) and not isinstance(rand_rank, numbers.Integral):', '    if (rand_rank is not None) and isinstance(rand_rank, numbers.Integral):', 'expect-fail'),
+    (CALC, '::dephase', '    if (rand_rank is None) or (rand_rank == d):\n        dephaser = eye(d) / d', '    if (rand_rank is None) or (rand_rank == d) or (rand_rank == 1.0):\n        dephaser = eye(d) / d', 'expect-fail'),  # (the defect C20-f put back)
     (CALC, '::dephase', 'nnz = np.random.choice(np.arange(d), size=rand_rank, replace=False)', 'nnz = np.random.choice(np.arange(d), size=rand_rank, replace=True)', 'expect-fail'),
     (CALC, '::dephase', '        dephaser_diag[nnz] = 1 / rand_rank', '        dephaser_diag[nnz] = 1 / d', 'expect-fail'),
     (CALC, '::dephase', '        dephaser = eye(d) / d\n', '        dephaser = eye(d)\n', 'expect-fail'),
@@ -211,8 +219,8 @@ MUTANTS = [
     (CALC, 'fdx:provider_pauli_correlations', '        return sum((abs(corr) for corr in gen_corr_list()))', '        return sum((corr for corr in gen_corr_list()))', 'expect-fail'),
     (CALC, 'fdx:provider_pauli_correlations', 'return lambda p: sum((abs(corr(p)) for corr in gen_corr_list()))', 'return lambda p: abs(sum((corr(p) for corr in gen_corr_list())))', 'expect-fail'),
     (CALC, 'fdx:provider_pauli_correlations', 'p, pauli(s1), pauli(s2), sysa, sysb, precomp_func=precomp_func', 'p, pauli(s1), pauli(s2), sysa, sysb', 'expect-fail'),
-    (CALC, 'fdx:provider_simulate_counts', 'bin_str = "{:0>" + str(n) + "b}"', 'bin_str = "{:0>" + str(n) + "o}"', 'expect-fail'),
-    (CALC, 'fdx:provider_simulate_counts', 'bin_str = "{:0>" + str(n) + "b}"', 'bin_str = "{:0>" + str(n + 1) + "b}"', 'expect-fail'),
+    (CALC, 'fdx:provider_simulate_counts', 'return np.base_repr(i, phys_dim).zfill(n)', 'return np.base_repr(i, 2).zfill(n)', 'expect-fail'),  # (the defect C20-e put back)
+    (CALC, 'fdx:provider_simulate_counts', 'return np.base_repr(i, phys_dim).zfill(n)', 'return np.base_repr(i, phys_dim).zfill(n + 1)', 'expect-fail'),
     (CALC, 'fdx:provider_simulate_counts', 'raw_counts = rng.choice(d, size=C, p=pi)', 'raw_counts = rng.choice(d, size=C + 1, p=pi)', 'expect-fail'),
     (CALC, 'fdx:provider_simulate_counts', '        pi = np.diag(p).real\n', '        pi = np.diag(p[::-1, ::-1]).real\n', 'expect-fail'),
     (CALC, 'fdx:provider_correlation_grid', 'opab = ikron((A, B), dims, (sysa, sysb), **opts)', 'opab = ikron((A, B), dims, (sysb, sysa), **opts)', 'expect-fail'),
@@ -231,6 +239,16 @@ MUTANTS = [
     (CALC, '::concurrence', '        p = ptr(p, dims, (sysa, sysb))\n\n    Y = pauli("Y")', '        q = ptr(p, dims, (sysa, sysb))\n\n    Y = pauli("Y")', 'expect-fail'),
     (CALC, '::concurrence', '    if len(dims) > 2:\n        p = ptr(p, dims, (sysa, sysb))\n\n    Y = pauli("Y")', '    if len(dims) > 3:\n        p = ptr(p, dims, (sysa, sysb))\n\n    Y = pauli("Y")', 'expect-fail'),
     (CALC, '::concurrence', '        p = ptr(p, dims, (sysa, sysb))\n\n    Y = pauli("Y")', '        p = ptr(p, dims, (sysb, sysa))\n\n    Y = pauli("Y")', 'benign'),
+    # ---- logneg_subsys, renumbering loop for a symbolic number of subsystems (contract key ...::logneg_subsys#all-n)
+    (CALC, '::logneg_subsys#all-n', '            new_dims.append(d)\n            new_sysa.append(next(new_inds))', '            new_dims.append(d)\n            new_sysa.append(i)', 'expect-fail'),
+    (CALC, '::logneg_subsys#all-n', '            new_dims.append(d)\n            next(new_inds)  # don\'t need sysb', '            new_dims.append(d)', 'expect-fail'),
+    (CALC, '::logneg_subsys#all-n', '        if i in sysa:\n            new_dims.append(d)\n            new_sysa.append(next(new_inds))', '        if i in sysa:\n            new_sysa.append(next(new_inds))', 'expect-fail'),
+    (CALC, '::logneg_subsys#all-n', '        elif i in sysb:\n            new_dims.append(d)', '        elif i in sysb:\n            new_dims.append(d + 1)', 'expect-fail'),
+    (CALC, '::logneg_subsys#all-n', '        elif i in sysb:\n            new_dims.append(d)\n            next(new_inds)', '        elif i in sysb:\n            new_dims.append(d)\n            new_sysa.append(next(new_inds))', 'expect-fail'),
+    (CALC, '::logneg_subsys#all-n', '    new_inds = iter(range(len(dims)))\n\n    for i, d in enumerate(dims):\n        if i in sysa:', '    new_inds = iter(range(len(dims) - 1))\n\n    for i, d in enumerate(dims):\n        if i in sysa:', 'expect-fail'),
+    (CALC, '::logneg_subsys#all-n', '    rho_ab = ptr(psi_abc, dims, sysa + sysb)\n\n    # need to adjust', '    rho_ab = ptr(psi_abc, dims, sysb + sysa)\n\n    # need to adjust', 'benign'),
+    (CALC, '::logneg_subsys#all-n', '    rho_ab = ptr(psi_abc, dims, sysa + sysb)\n\n    # need to adjust', '    rho_ab = ptr(psi_abc, dims, sysa + sysa)\n\n    # need to adjust', 'expect-fail'),
+    (CALC, '::logneg_subsys#all-n', '        elif i in sysb:\n            new_dims.append(d)\n            next(new_inds)', '        elif i in sysb or i not in sysa:\n            new_dims.append(d)\n            next(new_inds)', 'expect-fail'),
 ]
 
 _BASELINE = {}
